@@ -11,6 +11,7 @@ package main
 
 import (
 	"fmt"
+	"go/ast"
 	"go/token"
 	"go/types"
 	"regexp"
@@ -258,14 +259,14 @@ func init() {
 		ID: "C17", Level: "other",
 		Technique: "contract-based deductive verification of the position bookkeeping functions: lisperror.NewLispError (an error that carries a position keeps it; otherwise it gets the position of the reporting form), lisperror.GetPosition (the cursor of lists, vectors, symbols, maps, sets), Position.Copy/Close (begin from the receiver, end from the closing token), tokenReader.peek/next (the cursor handed out is the token's), tokenize (every token's cursor begins and ends on the scanner's line for that token and carries the module), call-site obligations that Read_str hands its text to tokenize and READ its text and cursor to Read_str unchanged",
 		DesignRef: "DESIGN.md §4 C17",
-		Explain:   "partial: the functions through which every error position passes are proved against their specification; that the reader's list cursors span first to last token, that EVAL hands the right form to NewLispError at each site, token rows = text lines (scanner) and library macros are not covered",
+		Explain:   "partial: the functions through which every error position passes are proved against their specification; every NewLispError call of EVAL/eval_ast reports at the current form, its first operand, the evaluated call or nil; that the reader's list cursors span first to last token, that the current form is the smallest one containing the fault, token rows = text lines (scanner) and library macros are not covered",
 		Run:       runC17,
 	})
 }
 
 func runC17(c *CheckCtx) {
 	names := []string{"lisperror.NewLispError", "lisperror.GetPosition", "(*types.Position).Copy", "(*types.Position).Close",
-		"(*reader.tokenReader).peek", "(*reader.tokenReader).next", "reader.tokenize", "reader.Read_str", "lisp.READ"}
+		"(*reader.tokenReader).peek", "(*reader.tokenReader).next", "reader.tokenize", "reader.Read_str", "lisp.READ", "lisp.EVAL", "lisp.eval_ast"}
 	// rows and columns are counted by the scanner on the text it is given: the text (and, from READ,
 	// the cursor naming the module) must reach the tokenizer as the caller passed it
 	savedHook := c.eng.hooks.onCallArgs
@@ -277,6 +278,27 @@ func runC17(c *CheckCtx) {
 		}
 		root := a.tr.rootAct
 		var goal Term
+		if rn := fnName(root.fn); (rn == "lisp.EVAL" || rn == "lisp.eval_ast") && fnName(sc) == "lisperror.NewLispError" && len(args) >= 2 && a.contract != nil {
+			// the form an evaluator error is positioned at is the form being evaluated (the variable
+			// ast as it stands at that point), its first operand, the evaluated call, or nothing
+			alts := []Term{Eq(args[1], "VNil")}
+			for _, name := range []string{"ast", "a1", "el"} {
+				var errs []string
+				keep := len(a.tr.errAt)
+				e := &specEnv{a: a, tr: a.tr, pkg: a.contract.pkg, st: st, old: a.entryState, vars: map[string]specVal{}, errs: &errs, preferLocals: true, atLi: a.innermostLoop(a.curBlock)}
+				v := e.eval(&ast.Ident{Name: name})
+				a.tr.errAt = a.tr.errAt[:keep]
+				if len(errs) == 0 && v.t != "" {
+					alts = append(alts, Eq(args[1], v.t))
+				}
+			}
+			loc, src := a.srcLine(pos)
+			base := fmt.Sprintf("%s/position/reported-at-the-current-form/«%s»", rn, normSrc(src))
+			a.tr.oblCount[base]++
+			a.tr.obls = append(a.tr.obls, &Obligation{Name: fmt.Sprintf("%s#%d", base, a.tr.oblCount[base]), Kind: "position", Fn: rn, Pos: loc,
+				Src: "the reporting form is the current form, its first operand, the evaluated call, or nil", Guard: st.reach, Goal: Or(alts...)})
+			return
+		}
 		switch {
 		case fnName(root.fn) == "reader.Read_str" && fnName(sc) == "reader.tokenize" && len(args) >= 1:
 			goal = Eq(args[0], root.args[0])
@@ -297,7 +319,7 @@ func runC17(c *CheckCtx) {
 	})
 	c.runJobs(jobs, func(o *Obligation) bool { return o.Kind == "post" || o.Kind == "position" })
 	c.assumptions["A-SCAN: token rows are text lines (third-party scanner); the scanner is modelled as a state machine whose Pos/TokenText are functions of the number of Scan calls"] = true
-	c.assumptions["not covered: spans of the lists built by read_list (attempted, dropped: the loop-carried cursor facts did not discharge), the form EVAL passes to NewLispError at each error site, positions through library macros written in lisp"] = true
+	c.assumptions["not covered: spans of the lists built by read_list (attempted, dropped: the loop-carried cursor facts did not discharge), positions through library macros, that the current form is the smallest one containing the fault written in lisp"] = true
 }
 
 // ---------------------------------------------------------------------------
